@@ -269,3 +269,55 @@ def gen_reference(rng: random.Random, prog):
         if e and e[0] == "ok":
             return req
     return None
+
+
+# ----------------------------------------------------------------------------- address re-use
+def gen_reuse_family(rng: random.Random, n):
+    """`n` programs of identical structure (so their objects are likely to land on the addresses
+    freed by their predecessors) but different argument types and constants, one request for all."""
+    base = lf.gen_program(rng, n_args=rng.randrange(2, 5), size=rng.randrange(2, 6), max_depth=1)
+    req = None
+    for _ in range(20):
+        req = gen_reference(rng, base)
+        if req is not None and len(req["inputs"]) >= 2:
+            break
+    if req is None:
+        return None
+    import copy
+
+    progs = []
+    for _ in range(n):
+        p = copy.deepcopy(base)
+        for nd in lf.walk(p["nodes"]):
+            if nd["k"] == "arg":
+                nd["ty"] = lf.gen_type(rng)
+            elif nd["k"] == "const":
+                nd["v"] = float(rng.randrange(-3, 4))
+        progs.append(p)
+    return {"progs": progs, "req": req}
+
+
+def run_reuse_family(fam):
+    """Build every program once, freeing it before the next is made; then do it all again.
+    Equal requests must give equal bytes both times. Returns [[key, what]]."""
+    import gc
+
+    def one_round():
+        shas = []
+        for p in fam["progs"]:
+            env = lf.realize(p)
+            got = lf.run_build(env, fam["req"])
+            shas.append(sha(got[1]) if got[0] == "ok" else "err:" + got[1])
+            del env, got
+            gc.collect()
+        return shas
+
+    first = one_round()
+    second = one_round()
+    bad = []
+    for j, (a, b) in enumerate(zip(first, second)):
+        if a != b:
+            bad.append(["bytes:stale-after-address-reuse",
+                        f"program {j} of a family of look-alike programs: {a} when built first, {b} when built again after its Vars were freed and others built"])
+            break
+    return bad
